@@ -31,13 +31,13 @@ def TagShape (tag : OpTag S) (c : List (Tensor S)) (self : Tensor S) (nd : List 
       nd = B ++ [f, rC, cC]
   | _ => False
 
-variable [AddLaws S] [MulLaws S]
+variable [AddLaws S] [MulLaws S] [CommLaws S]
 
 /-- **every modelled point-wise / broadcast / reshape closure is total, shape-correct and additive** on the
     operands its forward operation stored -/
 theorem vjp_lin (tag : OpTag S) (c : List (Tensor S)) (self : Tensor S) (t : List Bool) (nd : List Nat)
     (hs : TagShape tag c self nd) (ht : t.length = c.length) :
-    VjpLin (vjp tag c self) t nd (c.map (·.dims)) := by
+    VjpLinear (vjp tag c self) t nd (c.map (·.dims)) := by
   have two : ∀ {a b : Tensor S}, t.length = [a, b].length → ∃ f0 f1, t = [f0, f1] := by
     intro a b h
     match t, h with
